@@ -60,6 +60,10 @@ CLAIMED["C10"] = ("model_checking", "5 C10",
     "Inductive step on the real Edit/IntEdit: one key from an arbitrary (text over all code points, cursor offset, width) state, compared with the reference editor rules "
     "(insert, delete, move by one character, display-row moves, signals order and payloads, unused keys returned); rendered cursor equals reported cursor.",
     "z3 trusted; text length <= 2 quick / 3 thorough; widths concretised where layout rows are materialised; width table abstracted.")
+CLAIMED["C07"] = ("model_checking", "5 C07",
+    "Inductive step on the real ListBox over abstract items with symbolic heights and selectability from an arbitrary (offset, inset, focus) state: each key, mouse event, "
+    "focus request, resize and walker edit followed by render; the window read from the canvas shards is shown to be a gap-free slice containing the focus, on every path.",
+    "z3 trusted; 3 (quick) / 4 (thorough) items of height <= 3 / 5, boxes <= 5 / 7 rows; representation invariant of DESIGN section 5 re-proved.")
 NOT_YET = {}
 TECH = "bounded symbolic execution of the real urwid code (AST-lifted import of /repo) with z3 deciding every path obligation; counterexamples replayed on the un-lifted code"
 def main():
